@@ -308,6 +308,34 @@ def r16_2(chk, sdf):
                     skip_guard = any("None" in c.key() and (c.as_atom() or ("",))[0] in ("is", "isnot")
                                      and "[1]" in c.key() for c, _ in e.guards)
                     ok_adv = not skip_guard
+        if not ok_slice and not ok_adv:
+            # form B: the columns were worked out beforehand (a table of slices computed from the field table and written out by the
+            # evaluator, sa/miniinterp.py + sa/tablefold.py): every parsed field is read once, from exactly its own columns
+            fields = field_table(chk, sdf, table)
+            reads = {}
+            for e in ev.events:
+                key = val = None
+                if e.kind == "call" and e.target is not None and e.target.key().endswith(".append") and e.extra.get("args"):
+                    ta = e.target.as_atom()[1].as_atom()
+                    if ta and ta[0] == "sub" and len(ta[2]) == 1 and string_value(ta[2][0]) is not None:
+                        key, val = string_value(ta[2][0]), e.extra["args"][0]
+                elif e.kind == "store" and e.target.as_atom() and e.target.as_atom()[0] == "sub" and len(e.target.as_atom()[2]) == 1 \
+                        and string_value(e.target.as_atom()[2][0]) is not None:
+                    key, val = string_value(e.target.as_atom()[2][0]), e.value
+                if key is None or val is None:
+                    continue
+                for a in find_atoms(val, lambda a: a[0] == "slice"):
+                    lo = 0 if a[1].key() == "None" else a[1].const_value()
+                    hi = None if a[2].key() == "None" else a[2].const_value()
+                    reads.setdefault(key, []).append((None if lo is None else int(lo), None if hi is None else int(hi)))
+            want = {f[0]: (f[2], None if f[3] is None else f[2] + f[3]) for f in fields if f[1]}
+            if reads:
+                okb = all(reads.get(k) == [v] for k, v in want.items()) and set(reads) <= set(want)
+                wrong = {k: (reads.get(k), v) for k, v in want.items() if reads.get(k) != [v]}
+                chk.ob("R16.2", SDF, q, f"each field is read from line[n : n + width] with width from {table}", okb,
+                       expected="every parsed field once, from [start, start + width) of its row in the table", found=str(wrong)[:200] or None)
+                chk.ob("R16.2", SDF, q, "the offset advances by the field width for every field, parsed or not", okb)
+                continue
         chk.ob("R16.2", SDF, q, f"each field is read from line[n : n + width] with width from {table}", ok_slice and not bad_arg, found=bad_arg[:2] or None)
         chk.ob("R16.2", SDF, q, "the offset advances by the field width for every field, parsed or not", ok_adv)
 
